@@ -1418,14 +1418,23 @@ def gen_replica_case(r, k):
     ruf = r.choice([1, 2, 3, 4])
     if r.random() < 0.6:
         A["it0"] = r.randint(1, 7)       # the first step of A is then usually not one at which the replicas are read
-    for c, rid, u in ((A, "A", ruf), (B, "B", 1000)):
+    others = [B]
+    if r.random() < 0.5:
+        # a third walker (started at step 1 with replicaUpdateFrequency 1000: it never reads the files of the second)
+        C = json.loads(json.dumps(B))
+        C["id"] = "rc%s" % k
+        C["it0"] = 1
+        C["events"] = [("step", False, [v["lower"] + r.randint(-8, v["nx"] * 4 + 8) * v["w"] / 4 for v in A["vars"]]) for _ in range(r.randint(3, 9))]
+        others.append(C)
+    for c, rid, u in [(A, "A", ruf)] + [(o_, "BCD"[i_], 1000) for i_, o_ in enumerate(others)]:
+        c["noise"] = []
         c["pmf"] = c["pmf_keep"] = False
         c["binary"] = False
         c["meta_extra"] = ["multipleReplicas on", "replicaID %s" % rid, "replicasRegistry %s" % reg, "replicaUpdateFrequency %d" % u]
         c["outprefix"] = "c05w%s_%s" % (rid, k)
     A["ruf"] = ruf
     A["registry"] = reg
-    return A, B
+    return A, others
 
 
 def replica_oracle(c, impl, traj, fhills):
@@ -1484,17 +1493,17 @@ def fixed_replica_case():
         c["meta_extra"] = ["multipleReplicas on", "replicaID %s" % rid, "replicasRegistry c05_reg_w.txt", "replicaUpdateFrequency %d" % u]
         c["outprefix"] = "c05w%s_w" % rid
     A["ruf"] = 2
-    return A, B
+    return A, [B]
 
 
 def replica_cases(run, exe, r, d, ncases):
     for k in ["w"] + list(range(ncases)):
-        A, B = fixed_replica_case() if k == "w" else gen_replica_case(r, k)
+        A, others = fixed_replica_case() if k == "w" else gen_replica_case(r, k)
         for fn in os.listdir(d):
             if fn.startswith("c05w") or fn.startswith("c05_reg_") or fn.endswith(".files.txt"):
                 os.remove(os.path.join(d, fn))
         outs = []
-        for c in (B, A):
+        for c in others + [A]:
             sc = os.path.join(d, "s%s.scn" % c["id"])
             txt = scenario_text(c, True)
             open(sc, "w").write(txt)
@@ -1506,21 +1515,25 @@ def replica_cases(run, exe, r, d, ncases):
             except (ValueError, IndexError, KeyError):
                 impl, traj = None, None
             outs.append((c, txt, rcv, o, impl, traj))
-        rp = {"kind": "replicas", "scenario_B": outs[0][1], "scenario": outs[1][1]}
+        rp = {"kind": "replicas", "scenario_others": [t[1] for t in outs[:-1]], "scenario": outs[-1][1]}
         ok = all(rcv == 0 and impl is not None and traj is not None and len(impl) == len(step_events(c)) and
                  all("E" in s_ and "F" in s_ for s_ in impl) and "OUTPREFIX err=ok" in o for (c, txt, rcv, o, impl, traj) in outs)
         if not ok:
             run.count("replicas%s" % k, False)
             run.violation("crash", "a walker of a two-replica run died or lost the bias (rc=%s)" % [t[2] for t in outs], rp)
             continue
-        badB, _ = oracle(B, outs[0][4], outs[0][5])
+        badB = None
+        for t in outs[:-1]:
+            badB = badB or oracle(t[0], t[4], t[5])[0]
         if badB:
             run.count("replicas%s" % k, False)
             run.violation("replicas:first-walker:" + badB[0], badB[1], rp)
             continue
-        bad, nrec = replica_oracle(A, outs[1][4], outs[1][5], outs[0][5])
-        run.count("replicas%s" % k, nrec >= 2 and len(outs[0][5]) >= 1)
+        fh_ = [h for t in outs[:-1] for h in t[5]]
+        bad, nrec = replica_oracle(A, outs[-1][4], outs[-1][5], fh_)
+        run.count("replicas%s" % k, nrec >= 2 and len(fh_) >= 1)
         run.dist("replica_cases")
+        run.dist("walkers=%d" % len(outs))
         run.dist("replica_steps_with_foreign_hills", nrec)
         if bad:
             run.violation(bad[0], bad[1], dict(rp, step=bad[2]))
